@@ -863,6 +863,10 @@ def check_ensembles(case, ctx):
             ctx.equal(tuple(int(s) for s in first.shape), sh1, "ens2:marginal_first_shape")
             if tuple(int(s) for s in first.shape) == sh1:
                 ctx.close(np.asarray(first.ps, dtype=float), p1, jt + ptol(p1), "ens2:marginal_is_first_measurement")
+                # zeroing a sub-threshold joint outcome re-normalises inside its own branch: the statistics of the first
+                # measurement, as the ensemble of the first measurement reports them, are untouched by the second one
+                ctx.close(np.asarray(first.ps, dtype=float), np.asarray(pd1.ps, dtype=float), 1e-13,
+                          "ens2:first_marginal_equals_first_ensemble_exactly")
         second = pd2.marginalize(list(range(len(sh1), len(sh12))))
         if _valid_dist_obj(second, ctx, "ens2_marginal"):
             ctx.equal(tuple(int(s) for s in second.shape), sh2, "ens2:marginal_second_shape")
